@@ -143,6 +143,9 @@ def _batch(job):
     signal.signal(signal.SIGALRM, on_alarm)
     out = []
     kw = {"password": password} if password else {}
+    import tempfile
+    scratch_dir = tempfile.mkdtemp(prefix="verif_c04s_")
+    scratch = os.path.join(scratch_dir, "a.7z")
     for kind, data in cases:
         res = {}
         # extraction
@@ -166,11 +169,18 @@ def _batch(job):
         finally:
             signal.alarm(0)
         # integrity entry points on the same bytes
-        for call in ("test", "testzip"):
+        for call in ("test", "testzip", "testzip_path"):
             signal.alarm(8)
             try:
-                with py7zr.SevenZipFile(io.BytesIO(data), "r", **kw) as z:
-                    r = getattr(z, call)()
+                if call == "testzip_path":
+                    # opened by name: multi-folder archives take the parallel path
+                    with open(scratch, "wb") as f_:
+                        f_.write(data)
+                    with py7zr.SevenZipFile(scratch, "r", **kw) as z:
+                        r = z.testzip()
+                else:
+                    with py7zr.SevenZipFile(io.BytesIO(data), "r", **kw) as z:
+                        r = getattr(z, call)()
                 res[call] = "good" if r in (None, True) else "bad"
             except _Alarm:
                 res[call] = "timeout"
@@ -179,6 +189,8 @@ def _batch(job):
             finally:
                 signal.alarm(0)
         out.append(res)
+    import shutil as _sh
+    _sh.rmtree(scratch_dir, ignore_errors=True)
     return out
 
 
@@ -217,7 +229,7 @@ def run(ctx):
             ctx.count("outcome/" + kind, r["extract"].split(":")[0] + ("" if r["extract"] != "ok" else ("-complete" if r.get("complete") else "-partial")))
             inp = {"archive": label, "damage": kind, "archive_hex": data.hex() if len(data) < 3000 else None, "result": r}
             if kind == "intact":
-                if r["extract"] != "ok" or not r.get("complete") or r["test"] != "good" or r["testzip"] != "good":
+                if r["extract"] != "ok" or not r.get("complete") or r["test"] != "good" or r["testzip"] != "good" or r.get("testzip_path") != "good":
                     ctx.fail("C04:intact_reported_damaged", "an intact archive is not read completely / is reported damaged: %s" % r, inp)
                 continue
             if r["extract"].startswith("WRONG"):
@@ -228,6 +240,8 @@ def run(ctx):
             extract_fine = r["extract"] == "ok" and r.get("complete")
             if r["testzip"] == "good" and not extract_fine:
                 ctx.fail("C04:testzip_certifies_damaged", "testzip() reports no damage but extraction gives %s" % r["extract"], inp)
+            if r.get("testzip_path") == "good" and not extract_fine:
+                ctx.fail("C04:testzip_certifies_damaged", "testzip() on the archive opened by name reports no damage but extraction gives %s" % r["extract"], inp)
             if r["test"] == "good" and r["testzip"] == "bad" and False:
                 pass
 
